@@ -25,3 +25,10 @@ def F11_late_arrival(v):
 def F9_inherited_override(v):
     """the recorded history: publish on `do: a, b`, a re-publishes, b (which only inherited) arrives last"""
     return bool(v and v.get("history") == "F9")
+
+
+def F25_stale_iteration(v):
+    """the recorded histories: second iteration of a loop through a join, one branch of the new
+    iteration completes while its sibling has been offered but has not reported yet"""
+    h = (v or {}).get("history") or ""
+    return h.startswith("cycle/") and h.endswith("-not-started")
